@@ -386,6 +386,16 @@ Section FacadeTheory.
   Proof. intros p. repeat split. Qed.
 End FacadeTheory.
 
+(* the processor configured with json.Parser: the options reach the claim builder unchanged *)
+Theorem facade_json_parser : forall O V L c f t d,
+  let p := {| pr_validator := V; pr_loader := L;
+              pr_parser := Some {| ps_parse_claim := parser_parse_claim O;
+                                   ps_slot_index := get_field_slot_index |} |}
+           : processor cred schema_doc unit (option opts) in
+  (forall o, facade_parse_claim cred schema_doc unit (option opts) p c (Some o) = fst (to_core_claim O c (Some o))) /\
+  facade_slot_index cred schema_doc unit (option opts) p f t d = get_field_slot_index f t d.
+Proof. intros. split; reflexivity. Qed.
+
 (* ---------- examples (non-vacuity) ---------- *)
 
 Example ex_agree :
